@@ -244,6 +244,10 @@ func cdxNode(r *rand.Rand, id string, p float64, v15 bool, sweep int) *sbom.Node
 	}
 	if r.Intn(4) == 0 {
 		n.Type = sbom.Node_FILE
+		// a file may state what it is for: the kind has to survive whatever becomes of the purpose
+		if v15 && r.Intn(3) == 0 {
+			n.PrimaryPurpose = []sbom.Purpose{[]sbom.Purpose{sbom.Purpose_DATA, sbom.Purpose_MACHINE_LEARNING_MODEL, sbom.Purpose_FILE, sbom.Purpose_LIBRARY}[r.Intn(4)]}
+		}
 	} else if maybe(r, 0.8) {
 		ps := cdx14Purposes
 		if v15 {
